@@ -20,7 +20,6 @@ use http::HeaderValue;
 use log::debug;
 use log::error;
 use log::info;
-use lru_time_cache::Entry;
 use lru_time_cache::LruCache;
 use octo_squirrel::codec::BytesCodec;
 use octo_squirrel::codec::DatagramPacket;
@@ -187,7 +186,7 @@ where
     // client->local|inbound, local->client|inbound
     let (mut client_local, mut local_client) = UdpFramed::new(inbound, Socks5UdpCodec).split();
     let ttl = Duration::from_secs(600);
-    let mut client_server_cache = LruCache::with_expiry_duration_and_capacity(ttl, 64);
+    let mut client_server_cache: LruCache<Key, Binding<Out, OutSend>> = LruCache::with_expiry_duration_and_capacity(ttl, 64);
     let (client_local_tx, mut client_local_rx) = mpsc::channel(1024);
     let mut cleanup_timer = time::interval(ttl);
     loop {
@@ -202,27 +201,39 @@ where
                 client_local.send(item).await.unwrap_or_else(|e| error!("[udp] failed to send inbound msg; error={}", e));
             }
             // local->client|inbound
-            Some(Ok(((content, target), sender))) = local_client.next() => {
-                let key = new_key(sender, &target);
-                let _key = key.clone();
-                match client_server_cache.entry(key) {
-                    Entry::Vacant(entry) => {
-                        debug!("[udp] new binding; key={:?}", &_key);
-                        let out = new_out(&target, &context).await?;
-                        let (sink, relay_task) = new_binding(server_addr, client_local_tx.clone(), ((content, target), sender), _key, out, to_inbound_recv, to_outbound_send).await?;
-                        entry.insert(Binding {sink, relay_task});
+            item = local_client.next() => {
+                let ((content, target), sender) = match item {
+                    Some(Ok(item)) => item,
+                    Some(Err(e)) => {
+                        error!("[udp] discard malformed local datagram; error={}", e);
+                        continue;
                     }
-                    Entry::Occupied(entry) => {
-                        // client->server|outbound
-                        let value = entry.into_mut();
-                        if value.relay_task.is_finished() {
-                            debug!("[udp] retry binding; key={:?}", &_key);
-                            let out = new_out(&target, &context).await?;
-                            let (sink, relay_task) = new_binding(server_addr, client_local_tx.clone(), ((content, target), sender), _key, out, to_inbound_recv, to_outbound_send).await?;
-                            value.sink = sink;
-                            value.relay_task = relay_task;
-                        } else {
-                            value.sink.send(to_outbound_send((content, target), server_addr)).await?;
+                    None => break,
+                };
+                let key = new_key(sender, &target);
+                // no failure of one binding ends the loop: the binding is dropped and made anew by the next datagram
+                if client_server_cache.get(&key).is_some_and(|binding| !binding.relay_task.is_finished()) {
+                    // client->server|outbound
+                    if let Some(value) = client_server_cache.get_mut(&key) {
+                        if let Err(e) = value.sink.send(to_outbound_send((content, target), server_addr)).await {
+                            error!("[udp] client*-server send failed; key={:?}, error={}", &key, e);
+                            client_server_cache.remove(&key);
+                        }
+                    }
+                } else {
+                    debug!("[udp] new binding; key={:?}", &key);
+                    let binding = async {
+                        let out = new_out(&target, &context).await?;
+                        new_binding(server_addr, client_local_tx.clone(), ((content, target), sender), key.clone(), out, to_inbound_recv, to_outbound_send).await
+                    }
+                    .await;
+                    match binding {
+                        Ok((sink, relay_task)) => {
+                            client_server_cache.insert(key, Binding { sink, relay_task });
+                        }
+                        Err(e) => {
+                            error!("[udp] binding failed; key={:?}, error={}", &key, e);
+                            client_server_cache.remove(&key);
                         }
                     }
                 }
